@@ -1,12 +1,13 @@
 import EaselModel.Core.Proto
 import EaselModel.Getopts.Model
 import EaselModel.Getopts.WfCheck
+import EaselModel.Getopts.Alloc
 /-! Line-protocol driver for the C14 model (same ops as harness/h_getopts.c). -/
 open EaselModel EaselModel.Proto EaselModel.Getopts
 
 structure S where
   table : List Opt := []
-  g : Option G := none
+  g : Option GC := none      -- the object with its allocation layer (`Alloc.lean`); the queries read its erasure
   dead : Bool := false      -- the model predicted a crash of the C code: nothing more is answered
 
 def strOfBytes (bs : List UInt8) : Str := bs.map (fun b => Char.ofNat b.toNat)
@@ -26,7 +27,7 @@ def statusName : Status → String
   | .esyntax => "esyntax"
   | .einval => "einval"
 
-def report (s : S) (r : R) : S × String :=
+def report (s : S) (r : RC) : S × String :=
   match r with
   | .fault => ({ s with dead := true }, "fault")
   | .done g st m => ({ s with g := some g }, statusName st ++ (if m then " msg" else " nomsg"))
@@ -82,7 +83,7 @@ def step (s : S) (line : String) : S × String :=
     | _, _ => (s, "bad-op")
   | "create" :: _ =>
     if s.g.isSome || s.table.isEmpty then (s, "bad-op") else
-    match create s.table with
+    match createC s.table with
     | some g =>
       -- the table must lie in the class the theorems (`WF`) and the generator's conventions (`wfStrictB`) assume
       ({ s with g := some g }, if wfStrictB s.table then "ok" else "ok-table-outside-wfStrict")
@@ -97,8 +98,8 @@ def step (s : S) (line : String) : S × String :=
           | none => []
           | some "" => []
           | some v => (v.splitOn ",").map hexWord
-        report s (processCmdline g argv)
-      | "spoof" => report s (processSpoof g ((field ws "s").getD []))
+        report s (processCmdlineC g argv)
+      | "spoof" => report s (processSpoofC g ((field ws "s").getD []))
       | "env" =>
         let pairs : List (Str × Str) := match arg? ws "v" with
           | none => []
@@ -109,13 +110,16 @@ def step (s : S) (line : String) : S × String :=
               | _ => none
         -- later assignments of the same name win (setenv overwrite)
         let env : Str → Option Str := fun name => (pairs.reverse.find? (fun p => p.1 == name)).map (·.2)
-        report s (processEnvironment g env)
-      | "cfg" => report s (processConfigfile g ((field ws "s").getD []))
+        report s (processEnvironmentC g env)
+      | "cfg" => report s (processConfigfileC g ((field ws "s").getD []))
       | "verify" =>
-        let (st, m) := verifyConfig g
+        let (st, m) := verifyConfig g.abs
         (s, statusName st ++ (if m then " msg" else " nomsg"))
-      | "dump" => (s, dump g)
-      | "reuse" => ({ s with g := some (reuse g) }, "ok")
+      | "dump" =>
+        -- a getter that would run off an unterminated block is a crash of the C code
+        if !g.readable then ({ s with dead := true }, "fault")
+        else (s, dump g.abs ++ " valloc=" ++ ",".intercalate (g.valloc.map toString))
+      | "reuse" => ({ s with g := some (reuseC g) }, "ok")
       | _ => (s, "bad-op")
   | [] => (s, "bad-op")
 
